@@ -116,7 +116,7 @@ package types
 //@ spec sumTo(s Slice, e IntRefArr, p RefIntArr, k Int) Int
 //@ define totalPower(vs *ValidatorSet) Int = sumTo(vs.Validators, elems(vs.Validators), heap(Validator.VotingPower), len(vs.Validators))
 
-//@ pred wfValSet(vs *ValidatorSet) = vs != nil && forall(i, 0, len(vs.Validators), vs.Validators[i] != nil && vs.Validators[i].VotingPower >= 0) \
+//@ pred wfValSet(vs *ValidatorSet) = vs != nil && forall(p, off(vs.Validators), off(vs.Validators) + len(vs.Validators), at(vs.Validators, p) != nil && at(vs.Validators, p).VotingPower >= 0) \
 //@      && (vs.totalVotingPower == 0 || vs.totalVotingPower == totalPower(vs))
 
 //@ func (*ValidatorSet).Size
@@ -143,7 +143,7 @@ package types
 //@   props C15 C14 C16
 //@   requires wfValSet(valSet)
 //@   defines  forall(s, Slice, forall(e, IntRefArr, forall(p, RefIntArr, sumTo(s, e, p, 0) == 0)))
-//@   defines  forall(s, Slice, forall(e, IntRefArr, forall(p, RefIntArr, forall(k, Int, k >= 0 ==> sumTo(s, e, p, k+1) == sumTo(s, e, p, k) + p[e[off(s)+k]]))))
+//@   defines  forall(s, Slice, forall(e, IntRefArr, forall(p, RefIntArr, forall(k, Int, trigger(sumTo(s, e, p, k+1)), k >= 0 ==> sumTo(s, e, p, k+1) == sumTo(s, e, p, k) + p[e[off(s)+k]]))))
 //@   assigns  valSet.totalVotingPower
 //@   ensures  result == totalPower(valSet) || (result == 0 && totalPower(valSet) == 0)
 //@   ensures  result == totalPower(valSet)
@@ -337,7 +337,7 @@ package types
 //@ func (*ValidatorSet).VerifyCommit
 //@   props C15 C02 C13 C01
 //@   requires wfValSet(valSet) && commit != nil
-//@   defines  tally(0) == 0 && forall(k, Int, k >= 0 ==> tally(k+1) == tally(k) + ite(goodPrecommit(valSet, chainID, blockID, height, commit, k), powerAt(valSet, k), 0))
+//@   defines  tally(0) == 0 && forall(k, Int, trigger(tally(k+1)), k >= 0 ==> tally(k+1) == tally(k) + ite(goodPrecommit(valSet, chainID, blockID, height, commit, k), powerAt(valSet, k), 0))
 //@   assigns  commit.firstPrecommit, valSet.totalVotingPower
 //@   ensures  [commit-size] result == nil ==> len(commit.Precommits) == len(valSet.Validators)
 //@   ensures  [commit-two-thirds] result == nil ==> tally(len(commit.Precommits)) > totalPower(valSet)*2/3
@@ -423,3 +423,51 @@ package types
 //@   ensures  [same-step-same-bytes] result == nil && hrsEq(proposal.Height, proposal.Round, 1, old(durH), old(durR), old(durS)) ==> bytesEq(old(durBytes), proposalSB(chainID, proposal))
 //@   ensures  [refused-leaves-proposal-unsigned] result != nil ==> proposal.Signature == old(proposal.Signature)
 //@   ensures  signerInv(privVal)
+
+// ---------------------------------------------------------------------------------------------
+// validator lookup by address (C14, C16)
+
+//@ func (*ValidatorSet).GetByAddress
+//@   props C14 C16
+//@   requires wfValSet(valSet)
+//@   assigns  nothing
+//@   ensures  [found-is-the-validator] val != nil ==> 0 <= index && index < len(valSet.Validators) && bytesEq(valSet.Validators[index].Address, address) && fresh(val) \
+//@              && val.VotingPower == valSet.Validators[index].VotingPower && val.PubKey == valSet.Validators[index].PubKey && val.Address == valSet.Validators[index].Address && val.IsCA == valSet.Validators[index].IsCA
+//@   trusted-ensures val == nil ==> forall(j, 0, len(valSet.Validators), !bytesEq(valSet.Validators[j].Address, address))
+
+//@ func (*ValidatorSet).HasAddress
+//@   props C14 C16 C02
+//@   requires wfValSet(valSet)
+//@   pure
+//@   ensures  [has-means-member] result ==> exists(j, 0, len(valSet.Validators), bytesEq(valSet.Validators[j].Address, address))
+//@   trusted-ensures !result ==> forall(j, 0, len(valSet.Validators), !bytesEq(valSet.Validators[j].Address, address))
+
+// ---------------------------------------------------------------------------------------------
+// validator set updates (C14, C16)
+
+//@ func (*ValidatorSet).Add
+//@   props C14 C16
+//@   requires wfValSet(valSet) && val != nil && val.VotingPower >= 0
+//@   assigns  valSet.Validators, valSet.proposer, valSet.totalVotingPower, valSet.Validators[*]
+//@   ensures  [caches-invalidated] added ==> valSet.proposer == nil && valSet.totalVotingPower == 0
+//@   ensures  [grows-by-one] added ==> len(valSet.Validators) == old(len(valSet.Validators)) + 1
+//@   ensures  [not-added-unchanged] !added ==> valSet.Validators == old(valSet.Validators) && valSet.proposer == old(valSet.proposer) && valSet.totalVotingPower == old(valSet.totalVotingPower)
+//@   ensures  wfValSet(valSet)
+
+//@ func (*ValidatorSet).Update
+//@   props C14 C16
+//@   requires wfValSet(valSet) && val != nil && val.VotingPower >= 0
+//@   assigns  valSet.proposer, valSet.totalVotingPower, valSet.Validators[*]
+//@   ensures  [caches-invalidated] updated ==> valSet.proposer == nil && valSet.totalVotingPower == 0
+//@   ensures  [same-size] len(valSet.Validators) == old(len(valSet.Validators))
+//@   ensures  [not-updated-unchanged] !updated ==> valSet.proposer == old(valSet.proposer) && valSet.totalVotingPower == old(valSet.totalVotingPower)
+//@   ensures  wfValSet(valSet)
+
+//@ func (*ValidatorSet).Remove
+//@   props C14 C16
+//@   requires wfValSet(valSet)
+//@   assigns  valSet.Validators, valSet.proposer, valSet.totalVotingPower, valSet.Validators[*]
+//@   ensures  [caches-invalidated] removed ==> valSet.proposer == nil && valSet.totalVotingPower == 0
+//@   ensures  [shrinks-by-one] removed ==> len(valSet.Validators) == old(len(valSet.Validators)) - 1 && val != nil && bytesEq(val.Address, address)
+//@   ensures  [not-removed-unchanged] !removed ==> valSet.Validators == old(valSet.Validators) && valSet.proposer == old(valSet.proposer) && valSet.totalVotingPower == old(valSet.totalVotingPower)
+//@   ensures  wfValSet(valSet)
